@@ -971,6 +971,17 @@ class SymNP:
         return (SArr(idx, int),)
 
     @staticmethod
+    def putmask(a, mask, values):
+        # numpy: a.flat[n] = values[n % len(values)] wherever mask.flat[n]
+        vl = list(values) if _ndim(values) else [values]
+        ml = list(SymNP.asarray(mask))
+        if len(ml) != len(a):
+            raise ValueError("putmask: mask and data must be the same size")
+        for n, m in enumerate(ml):
+            if vl:
+                a[n] = _ite(_asb(m), vl[n % len(vl)], a[n])
+
+    @staticmethod
     def flatnonzero(a):
         return SymNP.where(SymNP.asarray(a))[0]
 
